@@ -54,14 +54,14 @@ func NewMutex[T comparable]() Mutex[T] {
 	}
 }
 
-func (a *mutex[T]) Lock(key T) {
+// get returns the mutex registered for key, creating it if there is none.
+func (a *mutex[T]) get(key T, pointLookedUp, pointCreated string) *sync.RWMutex {
 	a.lock.RLock()
 	mutex, ok := a.items[key]
 	a.lock.RUnlock()
-	verifPoint("cmap.lock.lookedUp", "key", key, "found", ok)
+	verifPoint(pointLookedUp, "key", key, "found", ok)
 	if ok {
-		mutex.Lock()
-		return
+		return mutex
 	}
 
 	a.lock.Lock()
@@ -71,8 +71,29 @@ func (a *mutex[T]) Lock(key T) {
 		a.items[key] = mutex
 	}
 	a.lock.Unlock()
-	verifPoint("cmap.lock.created", "key", key)
-	mutex.Lock()
+	verifPoint(pointCreated, "key", key)
+	return mutex
+}
+
+// current reports whether mutex is still the one registered for key.
+func (a *mutex[T]) current(key T, mutex *sync.RWMutex) bool {
+	a.lock.RLock()
+	cur, ok := a.items[key]
+	a.lock.RUnlock()
+	return ok && cur == mutex
+}
+
+func (a *mutex[T]) Lock(key T) {
+	for {
+		mutex := a.get(key, "cmap.lock.lookedUp", "cmap.lock.created")
+		mutex.Lock()
+		// The entry may have been deleted (DeleteUnlock/DeleteRUnlock/Delete) while we were waiting for the mutex we had
+		// looked up; holding that orphaned mutex would not exclude a caller that has since created a new one.
+		if a.current(key, mutex) {
+			return
+		}
+		mutex.Unlock()
+	}
 }
 
 func (a *mutex[T]) Unlock(key T) {
@@ -85,25 +106,15 @@ func (a *mutex[T]) Unlock(key T) {
 }
 
 func (a *mutex[T]) RLock(key T) {
-	a.lock.RLock()
-	mutex, ok := a.items[key]
-	a.lock.RUnlock()
-	verifPoint("cmap.rlock.lookedUp", "key", key, "found", ok)
-
-	if ok {
+	for {
+		mutex := a.get(key, "cmap.rlock.lookedUp", "cmap.rlock.created")
 		mutex.RLock()
-		return
+		// See Lock.
+		if a.current(key, mutex) {
+			return
+		}
+		mutex.RUnlock()
 	}
-
-	a.lock.Lock()
-	mutex, ok = a.items[key]
-	if !ok {
-		mutex = &sync.RWMutex{}
-		a.items[key] = mutex
-	}
-	a.lock.Unlock()
-	verifPoint("cmap.rlock.created", "key", key)
-	mutex.RLock()
 }
 
 func (a *mutex[T]) RUnlock(key T) {
@@ -136,8 +147,13 @@ func (a *mutex[T]) DeleteRUnlock(key T) {
 	mutex, ok := a.items[key]
 	if ok {
 		mutex.RUnlock()
+		// Other readers may still hold the mutex: removing the entry now would let a writer create a new mutex and run
+		// together with them. Remove it only if nobody holds it any more.
+		if mutex.TryLock() {
+			delete(a.items, key)
+			mutex.Unlock()
+		}
 	}
-	delete(a.items, key)
 	a.lock.Unlock()
 }
 
